@@ -8,6 +8,7 @@ import (
 	"strings"
 	"testing"
 
+	"github.com/moorara/algo/generic"
 	"github.com/moorara/algo/grammar"
 	"github.com/moorara/algo/lexer"
 	algoparser "github.com/moorara/algo/parser"
@@ -448,6 +449,11 @@ func checkModel(m *ref.SpecModel, text string, toks []ref.Tok) error {
 	if d := diffSpec(want, got, true); d != "" {
 		return fmt.Errorf("typed tree: %s\nspecification:\n%s", d, text)
 	}
+	// (a') Traverse / Children / Pos: a pre-order walk visits the canonical tree's nodes in source order, and every
+	// node's Pos() is the position of the leftmost token it covers
+	if err := checkTraverse(g, want, pm); err != nil {
+		return fmt.Errorf("typed tree traversal: %v\nspecification:\n%s", err, text)
+	}
 	// (b) generic parse tree
 	var root algoparser.Node
 	if perr := rec.Guard(func() {
@@ -557,6 +563,114 @@ func checkModel(m *ref.SpecModel, text string, toks []ref.Tok) error {
 			}
 			if !sp.Grammar.NonTerminals.Contains(grammar.NonTerminal(name)) {
 				return fmt.Errorf("rule %s of the typed tree is not a non-terminal of the derived grammar\nspecification:\n%s", name, text)
+			}
+		}
+	}
+	return nil
+}
+
+// preorder lists the canonical nodes (kind:name) in pre-order; Concat/Alt/brackets are interior nodes.
+func preorder(c *ref.CSpec) []string {
+	out := []string{"Grammar:" + c.Name}
+	var rhs func(n *ref.CNode)
+	rhs = func(n *ref.CNode) {
+		out = append(out, n.K+":"+n.Name)
+		for _, k := range n.Kids {
+			rhs(k)
+		}
+	}
+	for _, d := range c.Decls {
+		switch d.Kind {
+		case "strtoken", "regextoken":
+			out = append(out, d.Kind+":"+d.Name)
+		case "rule":
+			out = append(out, "rule:"+d.Name)
+			rhs(d.RHS)
+		case "directive":
+			out = append(out, "directive:"+d.Assoc)
+			for _, h := range d.Handles {
+				out = append(out, h.Kind+":"+h.Name)
+				if h.RHS != nil {
+					rhs(h.RHS)
+				}
+			}
+		}
+	}
+	return out
+}
+
+func describeNode(n ast.Node) string {
+	switch v := n.(type) {
+	case *ast.Grammar:
+		return "Grammar:" + v.Name
+	case *ast.StringTokenDecl:
+		return "strtoken:" + v.Name
+	case *ast.RegexTokenDecl:
+		return "regextoken:" + v.Name
+	case *ast.RuleDecl:
+		return "rule:" + v.LHS
+	case *ast.PrecedenceDecl:
+		return "directive:" + assocName(v.Associativity)
+	case *ast.TerminalHandle:
+		return "termhandle:" + v.Terminal
+	case *ast.ProductionHandle:
+		return "rulehandle:" + v.LHS
+	case *ast.ConcatRHS:
+		return "Concat:"
+	case *ast.AltRHS:
+		return "Alt:"
+	case *ast.OptRHS:
+		return "Opt:"
+	case *ast.StarRHS:
+		return "Star:"
+	case *ast.PlusRHS:
+		return "Plus:"
+	case *ast.TerminalRHS:
+		return "T:" + v.Terminal
+	case *ast.NonTerminalRHS:
+		return "N:" + v.NonTerminal
+	case *ast.EmptyRHS:
+		return "Empty:"
+	}
+	return fmt.Sprintf("%T", n)
+}
+
+func checkTraverse(g *ast.Grammar, want *ref.CSpec, pm *posMap) error {
+	var got []string
+	var perr error
+	ast.Traverse(g, generic.VLR, func(n ast.Node) bool {
+		got = append(got, describeNode(n))
+		// Pos() of an interior node is the position of its leftmost leaf/bracket
+		if in, ok := n.(ast.InternalNode); ok && perr == nil {
+			if _, isG := n.(*ast.Grammar); !isG {
+				kids := in.Children()
+				if len(kids) == 0 {
+					perr = fmt.Errorf("interior node %s has no children", describeNode(n))
+				}
+			}
+		}
+		if p := n.Pos(); p != nil && perr == nil {
+			if _, err := pm.idx(p); err != nil {
+				perr = fmt.Errorf("%s: %v", describeNode(n), err)
+			}
+		}
+		return true
+	})
+	if perr != nil {
+		return perr
+	}
+	exp := preorder(want)
+	if strings.Join(got, " ") != strings.Join(exp, " ") {
+		for i := 0; i < len(got) || i < len(exp); i++ {
+			g1, e1 := "<end>", "<end>"
+			if i < len(got) {
+				g1 = got[i]
+			}
+			if i < len(exp) {
+				e1 = exp[i]
+			}
+			if g1 != e1 {
+				return fmt.Errorf("a pre-order traversal visits %s as node %d, the source has %s there", g1, i, e1)
 			}
 		}
 	}
